@@ -16,7 +16,7 @@ func TestFamily(t *testing.T) {
 	for i := 0; i < n; i++ {
 		w := newWorld(t, r)
 		cfg := w.initConfig()
-		runHistory(w, nops)
+		runHistory(w, nops, i)
 		o.Emit("hist", map[string]any{"init": cfg, "steps": w.steps, "maxseq": hx.U(w.maxSeq + 2),
 			"ids": w.ids.list, "data": w.data.list}, nil)
 	}
